@@ -614,7 +614,12 @@ func (vc *VC) finish() {
 		vc.applyGhostExit(env, r.cond) // ghost.go
 		r.st = env.st
 		for _, c := range con.Ensures {
-			vc.oblige("post", "post."+c.Label+suffix, c.Props, r.cond, vc.evalBool(env, c.Expr), c.Text, r.pos)
+			if o := vc.oblige("post", "post."+c.Label+suffix, c.Props, r.cond, vc.evalBool(env, c.Expr), c.Text, r.pos); o != nil {
+				o.ResultSVs = res // replay.go: scalar results of the counter-model are compared with the real run
+				if o.sibling != nil {
+					o.sibling.ResultSVs = res
+				}
+			}
 		}
 		vc.frameObligations(r.cond, r.st, suffix)
 		vc.capturedFrame(r.cond, r.st, suffix)
